@@ -1,9 +1,11 @@
 """C03 - conversion identity, inverse, composition and route agreement."""
 import math, itertools
+from fractions import Fraction
 import numpy as np
 from vf import core
 from vf.ref import defs, dims, names
 from .common import all_names, chunks, udim
+from vf.gen import c03_dataaxis as DA
 
 RULE = ("ordered triples (A,B,C) of commensurable units: exhaustive inside the offset families (temperature incl. SI-prefixed and "
         "delta units; angles incl. lat/lon), the CGS<->SI electromagnetic pairs (prefixed too), random triples per dimension from the "
@@ -11,9 +13,21 @@ RULE = ("ordered triples (A,B,C) of commensurable units: exhaustive inside the o
         "Checked: identity bit-for-bit, A->B->A, A->B->C vs A->C, and agreement (numbers and unit) of to/in_units/to_value/"
         "convert_to_units/in_base/convert_to_base/in_cgs/in_mks/convert_to_cgs/convert_to_mks/hand-applied get_conversion_factor. "
         "Error bound derived from the affine parameters of A,B,C (k*eps*(|x|+|offsets|)), eps of the narrowest float. "
-        "distinct = (law, A, B[, C], dtype, shape) tuples")
+        "distinct = (law, A, B[, C], dtype, shape) tuples. "
+        "Data axis (vf/gen/c03_dataaxis.py): every ordered pair of ten commensurable pools (whole-number, fractional, huge/tiny and affine "
+        "factors) and random name-table pairs x int8..uint64/float16..complex128 x magnitudes at the edges of the dtype (first integers "
+        "beyond the result float's mantissa, iinfo.max/min, value*factor across the integer range, results near the top/bottom of the "
+        "result float) x forms (quantity, full array, one extreme element among harmless ones, strided, 2-d): all routes incl. the "
+        "in_base family against the factor applied by the harness in exact rational arithmetic, identity, A->B->A, A->B->C; bound "
+        "K*eps*(|v*f|+|o|) with eps of the float format the result is delivered in; distinct = (data law, A, B, dtype, form)")
 ASSUMPTIONS = ("affine parameters used for the error bound come from vf/ref/defs.py; the laws themselves need no reference values",
-               "the symbolic part of the quantifier (all real scale/offset parameters) is out of reach of runtime monitoring and not claimed")
+               "the symbolic part of the quantifier (all real scale/offset parameters) is out of reach of runtime monitoring and not claimed",
+               "data axis: 'the same numbers up to floating-point rounding' is read in the float format the result is delivered in (integers -> float "
+               "of their own item size, >= 16 bit; C17's rule): K=8 eps of that format times (|v*f|+|offset|); an integer the result float cannot hold "
+               "comes back rounded once under identity (<= 1 eps), not bit-identical",
+               "data axis: cases whose exact result, offset, factor (or inverse factor, for A->B->A) leave the normal range of the result float are a "
+               "range matter (DESIGN 4.13), discarded and counted; convert_to_units on 1-byte integers is a documented refusal (no 8-bit float): noted, "
+               "the copying routes of the same request are still judged")
 MIN_EVALS = 3000
 TIMEOUT = 900
 
@@ -352,6 +366,276 @@ def build_affine_registry(unyt, r, tag):
     return reg, fams
 
 
+# ---- data axis: magnitudes at the edges of every dtype, judged against the factor applied exactly by the harness ------------------
+REFUSAL_1BYTE = "Can't convert memory buffer in place"
+
+
+def _amax(z):
+    return max(abs(z.real), abs(z.imag)) if isinstance(z, complex) else abs(z)
+
+
+def _fmt(parts):
+    return [float(p[0]) if p[1] == 0 else complex(float(p[0]), float(p[1])) for p in parts]
+
+
+def data_judge(rec, law, res, want, tol, unit, dt, ops, strict_unit=True):
+    """res: {route: (numbers, unit-or-None) | ('EXC', name, msg)} judged element-wise against exact `want` within `tol`"""
+    oc = DA.opclass(dt)
+    good = True
+    for name, v in res.items():
+        if isinstance(v[0], str) and v[0] == "EXC":
+            if np.dtype(dt).itemsize == 1 and np.dtype(dt).kind in "iu" and name.startswith("convert_to") and REFUSAL_1BYTE in v[2]:
+                rec.note("data-axis:documented-refusal:in-place-1-byte-int"); continue
+            rec.violation(f"C03:data-axis:{law}:{name}:raises:{oc}", f"{law} {ops['A']}->{ops.get('B')} {dt} via {name} raised {v[1]}: {v[2]}", ops)
+            good = False; continue
+        bad = DA.compare(v[0], want, tol)
+        if bad is not None:
+            i, kind = bad
+            g = np.asarray(v[0]).ravel()
+            rec.violation(f"C03:data-axis:{law}:{name}:{kind}:{oc}",
+                          f"{law} {ops['A']}->{ops.get('B')} {dt} {ops['form']} via {name}: element {i} of input {ops['x'][i] if 0 <= i < len(ops['x']) else '?'} "
+                          f"gave {g[i].item() if 0 <= i < g.size else g.shape!r}, the factor {ops.get('factor')} applied by hand gives "
+                          f"{_fmt(want)[i] if 0 <= i < len(want) else '?'} (bound {float(tol[i]) if 0 <= i < len(tol) else 0:.3g})", ops)
+            good = False; continue
+        if strict_unit and v[1] is not None and unit is not None and not (v[1] == unit and str(v[1]) == str(unit)):
+            rec.violation(f"C03:data-axis:{law}:{name}:unit:{oc}", f"{law} {ops['A']}->{ops.get('B')} via {name} gives unit {v[1]}, requested {unit}", ops)
+            good = False
+    return good
+
+
+def zero_points(units, target):
+    """sum of the zero points of the named scales expressed in readings of `target` (the library's own offsets carry a rounding
+    error proportional to these, whatever the data are); 0 for offset-free and compound units"""
+    at = affine(target) or (1.0, 0.0)
+    z = Fraction(0)
+    for u in units:
+        au = affine(u)
+        if au and au[1]:
+            z += abs(Fraction(au[1])) / abs(Fraction(at[0]))
+    return z
+
+
+def data_forms(r, dt, kept, harmless, n_single):
+    """-> [(form, vals)]: one array with every magnitude, then single extremes as a quantity and inside a small array"""
+    out = [(r.choice(["array", "array", "strided", "2d"]), list(kept))]
+    if len(kept) > n_single:
+        # always the largest magnitudes, the rest at random
+        by = sorted(kept, key=_amax)
+        pick = by[-max(1, n_single // 3):] + r.sample(by[:-1], n_single - max(1, n_single // 3))
+    else:
+        pick = list(kept)
+    for v in pick:
+        out.append(("quantity", [v]))
+        out.append(("mixed", ([harmless[0], v, harmless[1]] if harmless else [v, v])))
+    return out
+
+
+def data_select(unyt, dt, A, f, o, r, nrand, need_inverse=False):
+    """magnitudes of dtype dt that pass the range gate for factor (f, o) -> (kept, harmless, discarded) ; None if the factor itself is out"""
+    vals = DA.magnitudes(dt, f, o, r, nrand)
+    arr = np.array(vals, dtype=dt)
+    parts = DA.exact_parts(arr)
+    gate = DA.in_gate(dt, parts, f, o, need_inverse)
+    if gate is None:
+        return None
+    vals = arr.tolist()
+    kept = [v for v, g in zip(vals, gate) if g]
+    small = np.array([1, 2], dtype=dt)
+    sg = DA.in_gate(dt, DA.exact_parts(small), f, o)
+    harmless = small.tolist() if sg and all(sg) else None
+    return kept, harmless, len(vals) - len(kept)
+
+
+def data_counters(rec, dt, vals, f, o):
+    dt = np.dtype(dt)
+    rec.count("data-axis:cases")
+    rec.count("data-axis:" + DA.opclass(dt) + ":" + DA.factor_class(f, o))
+    if dt.kind in "iu":
+        ii = np.iinfo(dt); p = np.finfo(DA.resfloat(dt)).nmant + 1
+        m = max(abs(int(v)) for v in vals)
+        if m > 2 ** p:
+            rec.count("data-axis:int-beyond-result-mantissa")
+            rec.count("data-axis:int-beyond-result-mantissa:" + DA.factor_class(f, o))
+        if m >= int(ii.max) - 2:
+            rec.count("data-axis:int-at-iinfo-limit")
+        if m * abs(f) > int(ii.max):
+            rec.count("data-axis:int-product-beyond-int-range")
+            if m > 2 ** p:
+                rec.count("data-axis:int-beyond-mantissa-and-product-beyond-int-range:" + DA.factor_class(f, o))
+    else:
+        ft = np.finfo(DA.resfloat(dt))
+        m = max(_amax(v) for v in vals)
+        if m * abs(f) + abs(o or 0) > float(ft.max) / 16:
+            rec.count("data-axis:float-result-near-top")
+        if 0 < m * abs(f) < float(ft.tiny) * 64:
+            rec.count("data-axis:float-result-near-bottom")
+        if dt.itemsize // (2 if dt.kind == "c" else 1) <= 4:
+            rec.count("data-axis:narrow-float")
+
+
+def check_data_pair(unyt, rec, r, A, B, C, dt, fam, n_single, nrand, reg=None):
+    """one (A, B[, C], dtype): all forms x all routes vs the hand-applied factor, identity, inverse, composition"""
+    kw = {} if reg is None else {"registry": reg}
+    ua, ub = unyt.Unit(A, **kw), unyt.Unit(B, **kw)
+    ndt = np.dtype(dt)
+    # the by-hand route in both spellings of the call: with and without the dtype argument (they must name the same map)
+    f, o = ua.get_conversion_factor(ub, ndt)
+    f0, o0 = ua.get_conversion_factor(ub)
+    if not (f0 == f and (o0 or 0.0) == (o or 0.0)):
+        eps = float(np.finfo(DA.resfloat(dt)).eps)
+        if abs(f0 - f) > eps * abs(f0) or abs((o0 or 0.0) - (o or 0.0)) > eps * abs(o0 or 0.0):
+            rec.violation(f"C03:data-axis:by-hand:factor-depends-on-dtype:{DA.opclass(dt)}", f"{A}.get_conversion_factor({B}) = {(f0, o0)} but with dtype {dt} = {(f, o)}", {"A": A, "B": B, "dtype": dt})
+            return
+    f = float(f); o = float(o) if o else 0.0
+    sel = data_select(unyt, dt, A, f, o, r, nrand)
+    if sel is None:
+        rec.count("data-axis:discarded:factor-out-of-float-range"); return
+    kept, harmless, ndisc = sel
+    if ndisc:
+        rec.count("data-axis:discarded:result-out-of-float-range", ndisc)
+    if not kept:
+        return
+    fclass = DA.factor_class(f, o)
+    ft = np.finfo(DA.resfloat(dt))
+    eps = Fraction(float(ft.eps)); sub = Fraction(float(ft.smallest_subnormal)); fmax = Fraction(float(ft.max)); tiny = Fraction(float(ft.tiny))
+    F = abs(Fraction(f)); O = abs(Fraction(o))
+    inv_ok = tiny <= 1 / F <= fmax
+    for form, vals in data_forms(r, dt, kept, harmless, n_single):
+        x = DA.build(unyt, dt, vals, A, form, reg)
+        if x.dtype != ndt:
+            rec.violation(f"C03:data-axis:harness:dtype-not-kept:{DA.opclass(dt)}", f"constructor turned {dt} data into {x.dtype}", {"A": A, "dtype": dt}); return
+        x0d = np.array(x.d, copy=True)
+        parts = DA.exact_parts(x0d)
+        ops = {"A": A, "B": B, "dtype": dt, "form": form, "factor": [f, o], "factor_class": fclass, "x": np.asarray(x0d).ravel().tolist()[:40]}
+        data_counters(rec, dt, np.asarray(x0d).ravel().tolist(), f, o)
+        good = True
+        # identity: the input rounded once into the result float
+        if form in ("quantity", "array", "strided", "2d"):
+            rf = DA.resfloat(dt)
+            wantI = parts
+            if ndt.kind in "iu":
+                rounded = DA.exact_parts(np.asarray(x0d).astype(rf))
+                tolI = [Fraction(0) if rr == pp else eps * abs(pp[0]) for rr, pp in zip(rounded, parts)]
+            else:
+                tolI = [Fraction(0)] * len(parts)
+            good &= data_judge(rec, "identity", run_routes(unyt, x, A, True), wantI, tolI, ua, dt, dict(ops, B=A))
+        # A -> B by every route
+        want = DA.hand(parts, f, o)
+        tol = DA.tolerances(dt, parts, f, o)
+        good &= data_judge(rec, "routes", run_routes(unyt, x, B, True), want, tol, ub, dt, ops)
+        if not np.array_equal(np.asarray(x.d), x0d) or x.dtype != ndt or str(x.units) != str(ua):
+            rec.violation(f"C03:data-axis:copying-route-mutated-input:{DA.opclass(dt)}", f"{A}->{B}: input changed", ops); good = False
+        if not good:
+            continue
+        # A -> B -> A
+        if inv_ok and all(max(abs(p[0]), abs(p[1])) + O / F <= fmax * Fraction(98, 100) for p in parts):
+            y = x.to(B)
+
+            def back_inplace():
+                c = y.copy(); c.convert_to_units(A); return numbers(c), c.units
+            res = {}
+            for name, fn in (("to.to", lambda: (lambda z: (numbers(z), z.units))(y.to(A))), ("to.convert_to_units", back_inplace)):
+                try:
+                    res[name] = fn()
+                except Exception as e:
+                    res[name] = ("EXC", type(e).__name__, str(e)[:120])
+            tolA = [3 * DA.K * eps * (max(abs(p[0]), abs(p[1])) + O / F + zero_points((A, B), A)) + DA.K * sub * (1 + 1 / F) for p in parts]
+            good &= data_judge(rec, "inverse", res, parts, tolA, ua, dt, ops)
+            rec.count("data-axis:inverse-judged")
+        # A -> B -> C vs A -> C
+        if C is not None and good:
+            uc = unyt.Unit(C, **kw)
+            fac, oac = ua.get_conversion_factor(uc, ndt); fbc, obc = ub.get_conversion_factor(uc, ndt)
+            fac = float(fac); oac = float(oac) if oac else 0.0; fbc = float(fbc); obc = float(obc) if obc else 0.0
+            gate = DA.in_gate(dt, parts, fac, oac)
+            FBC = abs(Fraction(fbc))
+            if gate is None or not all(gate) or not (tiny <= FBC <= fmax):
+                rec.count("data-axis:discarded:composition-out-of-float-range")
+            else:
+                zc = zero_points((A, B, C), C)
+                sc = [s + abs(Fraction(obc)) + O * FBC + zc for s in DA.scales(parts, fac, oac)]
+                if max(sc) > fmax * Fraction(98, 100):
+                    rec.count("data-axis:discarded:composition-out-of-float-range")
+                else:
+                    tolC = [3 * DA.K * eps * s + DA.K * sub * (1 + FBC) for s in sc]
+                    res = {}
+                    for name, fn in (("to(C)", lambda: (lambda z: (numbers(z), z.units))(x.to(C))), ("to(B).to(C)", lambda: (lambda z: (numbers(z), z.units))(x.to(B).to(C)))):
+                        try:
+                            res[name] = fn()
+                        except Exception as e:
+                            res[name] = ("EXC", type(e).__name__, str(e)[:120])
+                    good &= data_judge(rec, "composition", res, DA.hand(parts, fac, oac), tolC, uc, dt, dict(ops, C=C, factor_AC=[fac, oac]))
+                    rec.count("data-axis:composition-judged")
+        if good:
+            rec.ok(("data", fam, A, B, dt, form))
+            rec.count("laws-held:data-axis:" + fclass)
+
+
+def check_data_base(unyt, rec, r, A, dt, n_single, nrand):
+    """in_base / in_mks / in_cgs and their in-place twins on edge-of-dtype data vs the hand-applied factor to the equivalent unit"""
+    ua = unyt.Unit(A)
+    ndt = np.dtype(dt)
+    for sysname in DA.SYSTEMS:
+        try:
+            E = ua.get_base_equivalent(sysname)
+        except Exception:
+            rec.note("data-axis:base-equivalent-refused:%s" % sysname); continue
+        f, o = ua.get_conversion_factor(E, ndt)
+        f = float(f); o = float(o) if o else 0.0
+        sel = data_select(unyt, dt, A, f, o, r, nrand)
+        if sel is None:
+            rec.count("data-axis:discarded:factor-out-of-float-range"); continue
+        kept, harmless, ndisc = sel
+        if ndisc:
+            rec.count("data-axis:discarded:result-out-of-float-range", ndisc)
+        if not kept:
+            continue
+        for form, vals in data_forms(r, dt, kept, harmless, n_single):
+            x = DA.build(unyt, dt, vals, A, form)
+            x0d = np.array(x.d, copy=True)
+            parts = DA.exact_parts(x0d)
+            ops = {"A": A, "B": str(E), "system": sysname, "dtype": dt, "form": form, "factor": [f, o], "factor_class": DA.factor_class(f, o), "x": np.asarray(x0d).ravel().tolist()[:40]}
+            data_counters(rec, dt, np.asarray(x0d).ravel().tolist(), f, o)
+
+            def inpl(fn):
+                def g():
+                    c = x.copy(); fn(c); return numbers(c), c.units
+                return g
+
+            def cp(fn):
+                return lambda: (lambda z: (numbers(z), z.units))(fn())
+            routes = {"in_base": cp(lambda: x.in_base(sysname) if sysname else x.in_base()),
+                      "convert_to_base": inpl(lambda c: c.convert_to_base(sysname) if sysname else c.convert_to_base()),
+                      "to(equivalent)": cp(lambda: x.to(E)),
+                      "convert_to_units(equivalent)": inpl(lambda c: c.convert_to_units(E))}
+            if sysname == "mks":
+                routes["in_mks"] = cp(lambda: x.in_mks()); routes["convert_to_mks"] = inpl(lambda c: c.convert_to_mks())
+            if sysname == "cgs":
+                routes["in_cgs"] = cp(lambda: x.in_cgs()); routes["convert_to_cgs"] = inpl(lambda c: c.convert_to_cgs())
+            res = {}
+            for name, fn in routes.items():
+                try:
+                    res[name] = fn()
+                except Exception as e:
+                    res[name] = ("EXC", type(e).__name__, str(e)[:120])
+            ok_ = data_judge(rec, "base-routes", res, DA.hand(parts, f, o), DA.tolerances(dt, parts, f, o), E, dt, ops)
+            if not np.array_equal(np.asarray(x.d), x0d) or x.dtype != ndt:
+                rec.violation(f"C03:data-axis:base-routes:copying-route-mutated-input:{DA.opclass(dt)}", f"{A} in {sysname}: input changed", ops); ok_ = False
+            if ok_:
+                rec.ok(("data-base", sysname, A, dt, form))
+                rec.count("laws-held:data-axis-base-routes")
+
+
+def data_pairs():
+    out = []
+    for fam, pool in DA.POOLS.items():
+        for A in pool:
+            for B in pool:
+                if A != B:
+                    out.append((fam, A, B))
+    return out
+
+
 def batches(tier, seed):
     b = []
     tt = list(itertools.product(TEMP, TEMP))
@@ -366,6 +650,22 @@ def batches(tier, seed):
     b += [("base-routes/%d" % i, ("base", (seed, i, 8))) for i in range(8)]
     na = 16 if tier == "quick" else 96
     b += [("affine/%d" % i, ("affine", (seed, i, 260 if tier == "quick" else 1200))) for i in range(na)]
+    # data axis: every ordered pair of the pools x dtypes rotating with the seed (quick: 3 dtypes per pair, thorough: 6 and one more
+    # single-extreme form per pair - about 2.6x the quick size)
+    quick = tier == "quick"
+    nd = len(DA.ALL_DTYPES)
+    per = 3 if quick else 6
+    work = []
+    for j, (fam, A, B) in enumerate(data_pairs()):
+        work.append((fam, A, B, [DA.ALL_DTYPES[(per * j + k + seed) % nd] for k in range(per)]))
+    nb = 16 if quick else 32
+    b += [("data/%d" % i, ("data", (seed, i, work[i::nb], 3 if quick else 4, 4 if quick else 6))) for i in range(nb)]
+    units = [u for pool in DA.POOLS.values() for u in pool]
+    bw = [(A, [DA.ALL_DTYPES[(per * j + k + seed + 5) % nd] for k in range(per)]) for j, A in enumerate(units)]
+    nbb = 4 if quick else 8
+    b += [("data-base/%d" % i, ("data-base", (seed, i, bw[i::nbb], 2 if quick else 3, 3 if quick else 4))) for i in range(nbb)]
+    ndm = 4 if quick else 8
+    b += [("data-dim/%d" % i, ("data-dim", (seed, i, 120 if quick else 180))) for i in range(ndm)]
     return b
 
 
@@ -433,6 +733,43 @@ def worker(batch, rec):
             check_triple(unyt, rec, r, A, B, C if r.random() < 0.8 else None, r.choice(DTYPES), r.choice(SHAPES), "affine-" + fam, reg)
             rec.count("affine-triples")
         rec.sample({"affine_registry": {k_: list(v) for k_, v in list(CUSTOM.items())[:4]}})
+    elif kind == "data":
+        import warnings
+        warnings.simplefilter("ignore")
+        seed, i, work, n_single, nrand = payload
+        r = core.rng(seed, "data", i)
+        with np.errstate(all="ignore"):
+            for (fam, A, B, dts) in work:
+                pool = [u for u in DA.POOLS[fam] if u not in (A, B)]
+                for dt in dts:
+                    check_data_pair(unyt, rec, r, A, B, r.choice(pool) if r.random() < 0.6 else None, dt, fam, n_single, nrand)
+        rec.sample({"data_axis_first": list(work[0][:3]), "dtypes": work[0][3]})
+    elif kind == "data-base":
+        import warnings
+        warnings.simplefilter("ignore")
+        seed, i, work, n_single, nrand = payload
+        r = core.rng(seed, "data-base", i)
+        with np.errstate(all="ignore"):
+            for (A, dts) in work:
+                for dt in dts:
+                    check_data_base(unyt, rec, r, A, dt, n_single, nrand)
+    elif kind == "data-dim":
+        import warnings
+        warnings.simplefilter("ignore")
+        seed, i, n = payload
+        r = core.rng(seed, "data-dim", i)
+        bydim = {}
+        for x in all_names():
+            rr = names.resolve(x)
+            if rr and "\u00b0" not in x and x not in ("", "_") and defs.T[rr[1]].dim != dims.D("LOG"):
+                bydim.setdefault(defs.T[rr[1]].dim, []).append(x)
+        keys = sorted((k for k, v in bydim.items() if len(v) >= 3), key=str)
+        with np.errstate(all="ignore"):
+            for k in range(n):
+                lst = bydim[r.choice(keys)]
+                A, B, C = r.sample(lst, 3)
+                check_data_pair(unyt, rec, r, A, B, C if r.random() < 0.5 else None, r.choice(DA.ALL_DTYPES), "dim", 2, 3)
+        rec.sample({"data_axis_random_pairs": n})
     elif kind == "base":
         seed, i, n = payload
         r = core.rng(seed, "base", i)
@@ -451,8 +788,16 @@ def extra(tier, seed, results):
         for k, v in (r.get("counters") or {}).items():
             c[k] = c.get(k, 0) + v
     need = ["laws-held:temperature:offset-unit", "laws-held:angle:offset-unit", "laws-held:em", "laws-held:dim", "laws-held:compound",
-            "laws-held:affine:offset-unit", "unit-object-targets", "layout:strided"]
+            "laws-held:affine:offset-unit", "unit-object-targets", "layout:strided",
+            # data axis: every dtype kind x factor class, the magnitude classes, and each law
+            "data-axis:cases", "data-axis:inverse-judged", "data-axis:composition-judged", "laws-held:data-axis-base-routes",
+            "laws-held:data-axis:whole", "laws-held:data-axis:fractional", "laws-held:data-axis:unit-fraction", "laws-held:data-axis:huge",
+            "laws-held:data-axis:tiny", "laws-held:data-axis:affine",
+            "data-axis:int-beyond-result-mantissa", "data-axis:int-at-iinfo-limit", "data-axis:int-product-beyond-int-range",
+            "data-axis:int-beyond-mantissa-and-product-beyond-int-range:whole", "data-axis:int-beyond-mantissa-and-product-beyond-int-range:fractional",
+            "data-axis:float-result-near-top", "data-axis:float-result-near-bottom", "data-axis:narrow-float"]
+    need += ["data-axis:%s:%s" % (DA.opclass(dt), fc) for dt in DA.ALL_DTYPES for fc in ("whole", "fractional", "affine")]
     missing = [k for k in need if not c.get(k)]
     if missing:
         raise core.Inconclusive("sub-monitors-never-evaluated:" + ",".join(missing))
-    return {"sub_monitor_counters": {k: v for k, v in sorted(c.items()) if k.startswith(("laws-held", "layout", "unit-object", "affine"))}}
+    return {"sub_monitor_counters": {k: v for k, v in sorted(c.items()) if k.startswith(("laws-held", "layout", "unit-object", "affine", "data-axis"))}}
